@@ -510,4 +510,3 @@ package protocol
 //@   props C03
 //@   allocates
 //@   ensures err == nil ==> r >= 0
-
